@@ -224,7 +224,7 @@ def scen_async_record(cfg):
             faithful += _same(V, r.rng, ss.rng if flags["rng"] else None)
             faithful += _same(V, r.state, ss.state if flags["state"] else None)
             faithful += _same(V, r.inputs, dict(ss.inputs) if flags["inputs"] else None)
-            faithful += _same(V, r.output, ("output", "n", k, k) if flags["output"] else None)
+            faithful += _same(V, r.output, ("output", "n", k) if flags["output"] else None)
             faithful += _same(V, r.eps, 0)
         # the same episode with recording off
         cfg_off = dict(cfg, record_setting=dict(rng=False, inputs=False, state=False, output=False), max_records=20000)
